@@ -93,6 +93,14 @@ def run(chk):
         fixtures = [c for c in cases if "file" in c]
         keep = set(c["file"] for i, c in enumerate(fixtures) if (i + chk.seed) % 3 == 0 or "petstore" in c["file"] or "example-property" in c["file"])
         cases = [c for c in cases if "file" not in c or c["file"] in keep]
+    # one added member in an otherwise valid document: the only possible offender is the object that received it
+    import random
+    from .. import specgen as G
+    rng = random.Random(chk.seed + 202)
+    sg = G.SpecGen(rng)
+    for i in range(60 if chk.tier == "quick" else 6000):
+        d, e = G.single_added_member(sg.spec(), rng)
+        cases.append({"doc": d, "origin": "edited", "edits": [e]})
     extra = []
     cdir = os.path.join(C.VERIF, "corpus", "C02")
     if os.path.isdir(cdir):
